@@ -25,8 +25,8 @@ type c10Case struct {
 	Base      int64  `json:"base"`      // base time in 90 kHz ticks (may exceed 2^33 for MPEG-TS: wraps)
 	Tracks    string `json:"tracks"`    // v a va v+a v+aa v+aaa
 	BFrames   bool   `json:"bframes"`
-	Frags     int    `json:"frags"`     // fragments per segment (fMP4)
-	Range     bool   `json:"range"`     // byte-range addressing of one resource
+	Frags     int    `json:"frags"` // fragments per segment (fMP4)
+	Range     bool   `json:"range"` // byte-range addressing of one resource
 	PDT       bool   `json:"pdt"`
 	VOD       bool   `json:"vod"`
 	AudioLead int    `json:"audio_lead_ms"` // >0: audio starts that much before the video (and is multiplexed first); <0: after
@@ -55,7 +55,7 @@ type c10Stream struct {
 }
 
 func scaleTicks(t90k int64, ts int) int64 {
-	return t90k / 90000 * int64(ts) + (t90k%90000)*int64(ts)/90000
+	return t90k/90000*int64(ts) + (t90k%90000)*int64(ts)/90000
 }
 
 func c10Build(cs c10Case) (*c10Stream, error) {
@@ -292,11 +292,11 @@ func (st *c10Stream) server() *stubServer {
 }
 
 type c10Exp struct {
-	kind  string
-	rate  int
-	units []c10ExpUnit
+	kind       string
+	rate       int
+	units      []c10ExpUnit
 	name, lang string
-	def   bool
+	def        bool
 }
 
 type c10ExpUnit struct {
